@@ -8,6 +8,7 @@ import (
 	"sort"
 	"strconv"
 	"strings"
+	"sync"
 
 	"github.com/olive-io/bpmn/schema"
 	bpmn "github.com/olive-io/bpmn/v2"
@@ -708,5 +709,57 @@ func c16Engine(env *Env, rep *Report) {
 		rep.Evaluations++
 		rep.Nontrivial++
 		rep.Count("engine_isolation_shared_option")
+	}
+	// every task result is stored, also when two tokens wait in one task and are answered at the same time with
+	// different results: each answer's values must be readable afterwards, unchanged
+	for round := 0; round < 12 && !rep.Saturated(); round++ {
+		cs := fmt.Sprintf("two tokens in one task answered together with different results (round %d)", round)
+		env.Current(cs)
+		p := &Prog{}
+		p.Node("start", "start")
+		p.Node("par", "F")
+		p.Flow("start", "F", "")
+		p.Node("xor", "M")
+		p.Flow("F", "M", "")
+		p.Flow("F", "M", "")
+		t := p.Node("task", "T")
+		t.Results = []string{"ra", "rb"}
+		p.Flow("M", "T", "")
+		p.Node("end", "end")
+		p.Flow("T", "end", "")
+		defs, err := ParseDefs(p.XML(""))
+		must(err)
+		in, err := StartInst(defs, InstOpt{})
+		must(err)
+		rep.Evaluations++
+		rep.Nontrivial++
+		rep.Count("engine_two_answers_one_task")
+		if !in.WaitUntil(tmoStep, func(l []Ev) bool { return countEv(l, "task", "T") >= 2 }) {
+			rep.Violate("C16-engine", cs, "the task was not requested twice: "+logString(in.Log()))
+			in.Close()
+			continue
+		}
+		t1, t2 := in.WaitTask("T", tmoStep), in.WaitTask("T", tmoStep)
+		if t1 == nil || t2 == nil {
+			rep.Violate("C16-engine", cs, "two requests were announced, fewer can be answered: "+logString(in.Log()))
+			in.Close()
+			continue
+		}
+		va, vb := int64(1000+round), fmt.Sprintf("b-%d", round)
+		var wg sync.WaitGroup
+		wg.Add(2)
+		go func() { defer wg.Done(); t1.Do(bpmn.DoWithResults(map[string]any{"ra": va})) }()
+		go func() { defer wg.Done(); t2.Do(bpmn.DoWithResults(map[string]any{"rb": vb})) }()
+		wg.Wait()
+		if !in.WaitCease(tmoStep) {
+			rep.Violate("C16-engine", cs, "instance did not complete: "+logString(in.Log()))
+		} else {
+			ga, oka := in.P.Locator().GetVariable("ra")
+			gb, okb := in.P.Locator().GetVariable("rb")
+			if !oka || !okb || !c16Same(va, ga) || !c16Same(vb, gb) {
+				rep.Violate("C16-engine", cs, fmt.Sprintf("task results read back: ra = %#v (present %v, stored %#v), rb = %#v (present %v, stored %#v)", ga, oka, va, gb, okb, vb))
+			}
+		}
+		in.Close()
 	}
 }
